@@ -232,7 +232,12 @@ pub fn replay(v: &Value, path: &str) -> i32 {
     let seed = v["case_seed"].as_u64().unwrap_or(0);
     let class = v["class"].as_str().unwrap_or("");
     let dir = crate::common::scratch_base().join("np-replay");
-    let case = generate(seed);
+    // the case as recorded (the generator may have moved on since), else regenerated from its seed
+    let strs = |k: &str| -> Option<Vec<String>> { v[k].as_array().map(|a| a.iter().filter_map(|x| x.as_str().map(|s| s.to_string())).collect()) };
+    let case = match (v["lexer"].as_str(), v["grammar"].as_str(), strs("missing_from_lexer"), strs("missing_from_parser")) {
+        (Some(l), Some(y), Some(ml), Some(mp)) => Case { lex: l.to_string(), yacc: y.to_string(), missing_from_lexer: ml, missing_from_parser: mp, dup_state: v["dup_state"].as_str().map(|s| s.to_string()) },
+        _ => generate(seed),
+    };
     let r = run_case(&bin, &case, &dir);
     let _ = std::fs::remove_dir_all(&dir);
     match r {
@@ -256,5 +261,6 @@ pub fn replay(v: &Value, path: &str) -> i32 {
 }
 
 pub fn replay_json(class: &str, seed: u64, case_seed: u64, cnt: u64, detail: &str, case: &Case) -> Value {
-    json!({"engine": "N-np", "property": "C19", "class": class, "seed": seed, "case_seed": case_seed, "occurrences_in_run": cnt, "detail": detail, "lexer": case.lex, "grammar": case.yacc})
+    json!({"engine": "N-np", "property": "C19", "class": class, "seed": seed, "case_seed": case_seed, "occurrences_in_run": cnt, "detail": detail, "lexer": case.lex, "grammar": case.yacc,
+           "missing_from_lexer": case.missing_from_lexer, "missing_from_parser": case.missing_from_parser, "dup_state": case.dup_state})
 }
